@@ -167,6 +167,10 @@ func init() {
 	u(sc("req", opt(oFNP, 1), add(), hold(1), send(), openctx(), sendc(1), recv(), relFail(1)))
 	u(sc("req", opt(oFNP, 0), send(), opt(oBE, 1), send(), send(), opt(oFNP, 1), send()))
 	u(sc("req", add(), hold(1), send(), openctx(), sendc(1), recv(), drop(1), add()))
+	// FAIL-NO-PEERS is each context's own setting: set on a context only (its parked Recv fails when the last peer leaves, the
+	// socket's own does not), and set on the socket but cleared on the context (the other way round)
+	u(sc("req", add(), openctx(), optc(1, oFNP, 1), send(), sendc(1), recv(), recvc(1), drop(1), add()))
+	u(sc("req", opt(oFNP, 1), add(), openctx(), optc(1, oFNP, 0), send(), sendc(1), recv(), recvc(1), drop(1), add()))
 	t(sc("req", opt(oFNP, 1), opt(oSD, 100), opt(oRD, 100), add(), hold(1), send(), openctx(), sendc(1), recv(), pass(40), drop(1), pass(140)))
 	t(sc("req", opt(oFNP, 1), opt(oRD, 80), add(), send(), recv(), pass(40), drop(1), pass(140), send()))
 	t(sc("req", opt(oSD, 60), send(), pass(30), pass(140), opt(oSD, 0), add(), send(), opt(oRD, 80), recv(), pass(40), pass(140)))
